@@ -13,7 +13,8 @@ tools/e2e.py's plain fake ssh does) and, according to the plan in $C09_PLAN (JSO
             (boss->doer / doer->boss).  A frame is an 8-byte LE length followed by that many bytes.
   * "kill": {"log": path, "lines": k}  SIGKILLs the doer's process group as soon as the doer's command
             log (RJRSSYNC_VERIF_CMD_LOG, given through "env") has k lines, i.e. around its k-th command;
-            what was in the log at that moment is written to <log>.killed.
+            what was in the log at that moment is written to <log>.killed
+            (only when the signal really ended the process).
 No other behaviour of ssh is imitated: stdin is inherited, stdout/stderr are relayed line by line until
 the handshake and byte-wise afterwards, the exit status is the child's (255 when it was killed)."""
 import os, sys, json, socket, struct, subprocess, threading, time, signal
@@ -157,7 +158,7 @@ def main():
         except OSError:
             pass
 
-    killed = [False]
+    killed = [None]     # what the command log held when SIGKILL was sent
 
     def killer():
         k = plan['kill']
@@ -169,9 +170,7 @@ def main():
             except OSError:
                 text = b''
             if text.count(b'\n') >= want:
-                killed[0] = True
-                with open(path + '.killed', 'wb') as f:
-                    f.write(text)
+                killed[0] = text
                 try:
                     os.killpg(child.pid, signal.SIGKILL)
                 except ProcessLookupError:
@@ -188,6 +187,11 @@ def main():
     rc = child.wait()
     for t in ts:
         t.join()
+    # the kill counts only if it ended the process (a doer that had already exited is not a fault)
+    was_killed = killed[0] is not None and rc == -signal.SIGKILL
+    if was_killed:
+        with open(plan['kill']['log'] + '.killed', 'wb') as f:
+            f.write(killed[0])
     if proxy[0] is not None:
         try:
             proxy[0].close_both()
@@ -197,7 +201,7 @@ def main():
             with open(plan['cut']['stats'], 'w') as f:
                 json.dump({'frames': proxy[0].frames, 'did_cut': proxy[0].did_cut}, f)
     # do not run interpreter shutdown handlers on broken pipes
-    os._exit(255 if (killed[0] or rc < 0) else rc)
+    os._exit(255 if (was_killed or rc < 0) else rc)
 
 
 if __name__ == '__main__':
